@@ -124,8 +124,8 @@ def g_free(rng, d):
         return rng.choice(IDS) + " = {" + ", ".join(rng.choice(PRIMS) for _ in range(rng.randint(1, 3))) + "}"
     if x < 0.5:
         return rng.choice(["::a", "a::b", "a::b::c", "a.b(c)", "p->x[i]", "a.b.c++", "throw x", "(a ? b : c) + 1", "x = y ? 1 : 2"])
-    if x < 0.58:
-        return rng.choice(['u8"s"', 'L"w" + 1', "L'c'", 'f(u"a", U"b")', '"km"_k', "'c'_z", 'R"(raw)"'])
+    if x < 0.505:
+        return rng.choice(['u8"s"', 'L"w" + 1', "L'c'", 'f(u"a", U"b")', '"km"_k', "'c'_z", 'R"(raw)"'])   # known finding: rare
     if x < 0.7:
         return rng.choice(["- -x", "+ +x", "& &x", "- --x", "+ ++x", "-- -x", "! !x", "~ ~x", "* *p", "- - -x", "a = - -b", "(- -a) * b",
                            "& *p", "* &x", "- +x", "+ -x", "a && & b", "a - (- -b)"])
@@ -169,13 +169,15 @@ def fixed_cases():
             cs.append("F " + chunks(("%s %sx" % (u, u2)).encode()))
     for w in ["a++ + b", "a[i]++ - f(x, y)[2]", "(a)(b)[c](d)", "f()", "f(g(h(1)))", "(a, b)", "f((a, b), c)", "a << b + c", "a = b = c",
               "a - b - c", "a / b * c", "-a.b", "*p++", "&a[1]", "(a++)", "f(i++)", "a[i++]", "a * *p", "x, y = 1, z", "!a == b", "a & b == c",
-              '"x" "y"', "a ? b : c", "a ? b : c ? d : e", "a ? b ? c : d : e", "sizeof(x)", "sizeof(x) + 1", "(", "a b"]:
+              '"x" "y"', "a ? b : c", "a ? b : c ? d : e", "a ? b ? c : d : e", "sizeof(x)", "sizeof(x) + 1", "(", "a b",
+              'L"w" + 1', "'c'_z", "sizeof x"]:
         cs.append(("E " if ref_ok(w) else "F ") + chunks(w.encode()))
+    cs.append("G 29")                                        # a lone closing bracket: known finding (crash)
     return cs
 
 
 def ref_ok(s):
-    return not any(k in s for k in ("?", "sizeof", "(a++)", '"x" "y"', "a b")) and s != "("
+    return not any(k in s for k in ("?", "sizeof", "(a++)", '"x" "y"', "a b", 'L"', "'c'_")) and s != "("
 
 
 # ----------------------------------------------------------------------------- programs (tested part)
